@@ -268,7 +268,7 @@ CHECKS["C19"] = {"pkg": "racesim", "test": "TestC19", "level": "exploration", "r
     "thorough": {"checks": 9600, "shards": 16, "timeout": 3000},
     "rule": "rapid draws operation mixes for 4-12 free-running goroutines on shared instances, in a binary built with -race: (a) galaxy-ipam: "
             "Filter, Filter+Bind (one bind per pod), Preempt, pod update/finish/delete events feeding 5 unbind loops, resync and pod-IP sync "
-            "(one goroutine), /v1/ip list and release, pool create/update with pre-allocation, ConfigMap reload (one goroutine), Prometheus "
+            "(one goroutine), add/delete watch events of administrator-labelled FloatingIP objects through the handlers the IPAM registered (one goroutine), /v1/ip list and release, pool create/update with pre-allocation, ConfigMap reload (one goroutine), Prometheus "
             "Gather on the IPAM collector, recording cloud provider; (b) galaxy: concurrent CNI ADD/DEL of multi-network pods (networks from the json configuration and networks that exist only as "
             "files of the network conf dir, resolved per request) through the real handler and fake plugins, policy manager add/update/delete/pod events and full syncs on the mutex-protected strict fakes, "
             "port-mapping open/close/setup/clean/full sync. Oracle: Go race detector reports (GORACE halt_on_error=0), attributed to galaxy "
